@@ -41,8 +41,11 @@ def case(inp):
     before = a.serialize()
     kw = dict(missed_cleavages=mc, semi=semi)
     spans = list(pt.digest(a.copy(), rule, return_type='span', **kw))
-    if straddles(v, spans):
-        return True, None, None, None       # intervals straddling a cut are outside the property
+    # an interval straddling a cut: which of the two peptides carries it is not fixed by the statement -- the interval clause and the
+    # mass sum are not checked for such a digest; everything else (residues, residue / terminal / global modifications, the agreement
+    # of the return types, the text re-parsing to the annotation, the peptide found again at its offset) is
+    cut = straddles(v, spans)
+    noiv = (lambda d: {k_: x for k_, x in d.items() if k_ != 'intervals'}) if cut else (lambda d: d)
     annots = list(pt.digest(a.copy(), rule, return_type='annotation', **kw))
     strs = list(pt.digest(a.copy(), rule, return_type='str', **kw))
     ss = list(pt.digest(a.copy(), rule, return_type='str-span', **kw))
@@ -53,9 +56,9 @@ def case(inp):
         p = annots[k]
         exp = o_slice(v, s, e)
         w = view(p)
-        if w != exp:
+        if noiv(w) != noiv(exp):
             return False, ('peptide of span %s == slice of the protein' % ((s, e),), exp), w, None
-        if strs[k] != p.serialize() or ss[k] != (strs[k], spans[k]) or ans[k][1] != spans[k] or view(ans[k][0]) != exp:
+        if strs[k] != p.serialize() or ss[k] != (strs[k], spans[k]) or ans[k][1] != spans[k] or noiv(view(ans[k][0])) != noiv(exp):
             return False, ('return types agree for span %s' % ((s, e),), p.serialize()), (strs[k], ss[k], ans[k][1]), None
         if e > s:
             rp = parse(strs[k])
@@ -66,24 +69,39 @@ def case(inp):
                 return False, ('peptide found again in the protein at offset %d' % s, strs[k]), list(found), None
     if a.serialize() != before:
         return False, 'protein unchanged', a.serialize(), None
-    if mc == 0 and not semi and rule != 'non-specific' and not v['labile'] and not v['unknown'] and not v['intervals']:
+    if mc == 0 and not semi and not cut and rule != 'non-specific':
         parts = list(pt.digest(a.copy(), rule, missed_cleavages=0, return_type='annotation'))
         if parts and not any('Glycan' in str(m) or 'Carbamid' in str(m) for m in v['static']):
             # labels and static rules are carried by every peptide; charge must not be counted k times -> compare neutral masses
             tot = sum(pt.mass(x, charge=0) for x in parts)
             exp_m = pt.mass(a.copy(), charge=0) + (len(parts) - 1) * pt.chem_mass({'H': 2, 'O': 1})
             if abs(tot - exp_m) > 1e-6 * max(1, len(parts)):
+                if v['labile'] or v['unknown']:
+                    # recorded finding: labile / unknown-position modifications ride on EVERY peptide; is the excess exactly that?
+                    lu = pt.mass(a.copy(), charge=0) - pt.mass(parse(strip_lu(text)), charge=0)
+                    if abs((tot - exp_m) - (len(parts) - 1) * lu) <= 1e-6 * max(1, len(parts)):
+                        inp['_known'] = 'C07-labile-unknown-on-every-peptide'
                 return False, ('zero-missed-cleavage peptides sum to the protein mass + one water per cut', exp_m), tot, None
     return True, None, None, ('c07', rule, mc, semi, len(spans))
 
 
+def strip_lu(text):
+    """the protein text without its labile ({..}) and unknown-position ([..]?) modifications"""
+    import re
+    t = re.sub(r'\{[^}]*\}(\^\d+)?', '', text)
+    t = re.sub(r'(\[[^\]]*\](\^\d+)?)+\?', '', t)
+    return t
+
+
 def fk(inp, exp, obs):
+    if inp.get('_known') and 'sum to the protein mass' in str(exp):
+        return inp['_known']
     return '?' + str(exp)[:50]
 
 
 def texts(tier, rnd):
     base = ['PEKTIDERPK', 'KKK', 'AKAKAKR', 'MDEKRPTK', 'K']
-    decor = [dict(), dict(nterm='[Acetyl]-'), dict(cterm='-[Amidated]'), dict(labile='{Glycan:Hex}'), dict(static='<[Carbamidomethyl]@K>'),
+    decor = [dict(), dict(nterm='[Acetyl]-'), dict(cterm='-[Amidated]'), dict(labile='{Glycan:Hex}'), dict(unknown='[1.5]?'), dict(static='<[Carbamidomethyl]@K>'),
              dict(isotope='<13C>'), dict(nterm='[Acetyl]-', cterm='-[2.5]', static='<[1.5]@E>', isotope='<15N>', charge='/2')]
     for seq in base:
         n = len(seq)
@@ -93,6 +111,8 @@ def texts(tier, rnd):
                 ivs = [()]
                 if n >= 4:
                     ivs.append(((1, 3, False, '[1.25]'),))
+                if n >= 7:
+                    ivs.append(((2, 6, False, '[1.25]'),))      # cut by the cleavage sites inside it
                 for iv in ivs:
                     yield build(seq, pat, intervals=iv, **d)
     aa = 'ACDEFGHIKLMNPQRSTVWY'
